@@ -1,7 +1,9 @@
 import NanoVerif.Model.DriverMain
-/-! line-protocol driver of C19 (must not import Mathlib, directly or indirectly); stub until the family exists -/
+import NanoVerif.Driver.Parameter
+/-! line-protocol driver of C19 (must not import Mathlib, directly or indirectly) -/
 open NanoVerif
 
-def handle (_fam : String) (_rest : List String) : Option String := none
+def handle (fam : String) (rest : List String) : Option String :=
+  Driver.Parameter.handle fam rest
 
 def main : IO Unit := DriverMain.run handle
